@@ -2,9 +2,18 @@ package checks
 
 func init() {
 	Registry["C04"] = func(c *Ctx) {
-		c.R.Rule = "two parts. (a) scenario = (graph of <=4 nodes incl. alias / unselected node, set of failing targets, fail-fast, num_workers); each scenario runs the real dag.Walker with the real TaskWorkerPool under the controlled scheduler for EVERY choice sequence with <= d deviations (a deviation = any non-default scheduling / select / map-order choice). An execution is non-trivial when at least one command ran; distinct (scenario, observable trace) pairs are counted. (b) cache read faults at every depth of a restore, with the REAL binary: a workspace with a flat directory output (3 files), a nested directory output (3 levels), a file output and a dependant is built, all outputs are deleted, then EVERY non-empty subset (quick: all subsets of size <= 3 and >= n-1; thorough: all) of the cache entries (blobs, tree blobs, target results) is removed and the build re-run: it must exit (45 s ceiling only classifies a hang), exit 0 by re-executing what was lost, and produce the right outputs."
+		c.R.Rule = "two parts. (a) scenario = (graph of <=4 nodes incl. alias / unselected node, set of failing targets, fail-fast, num_workers); each scenario runs the real dag.Walker with the real TaskWorkerPool under the controlled scheduler for EVERY choice sequence with <= d deviations (a deviation = any non-default scheduling / select / map-order choice). An execution is non-trivial when at least one command ran; distinct (scenario, observable trace) pairs are counted. (b) cache read faults at every depth of a restore, with the REAL binary: a workspace with a flat directory output (3 files), a nested directory output (3 levels), a file output and a dependant is built, all outputs are deleted, then EVERY non-empty subset (quick: all subsets of size <= 3 and >= n-1; thorough: all) of the cache entries (blobs, tree blobs, target results) is removed and the build re-run: it must exit (45 s ceiling only classifies a hang), exit 0 by re-executing what was lost, and produce the right outputs. (c) failure modes with the real binary: histories of <= 3/4 operations over {command exits non-zero (also for a target that declares a timeout which does not expire), declared output missing, timeout, build, build --fail-fast} on the chain workspace: grog exits (60 s ceiling only classifies a hang)."
 		c.R.Assume("commands are stubs with one scheduling point between start and end (latency = any number of other steps, including zero)", "scheduling points sit at every lock, once, wait-group wait, channel operation, select, close and goroutine start of graph_walker.go and task_worker_pool.go; atomics are not scheduling points", "goroutine interleavings beyond the deviation bound are not covered")
 		walkCheckBudget("C04", []string{"C04:"}, 2, 3, 40, 420)(c)
 		c04MissingBlobs(c)
+		// (c) every failure mode of a real command must end the build: exit code, missing output and
+		// timeout failures of targets with dependants, keep-going and fail-fast (real binary, chain workspace;
+		// one target declares a timeout that never expires)
+		chainCheck("C04", []string{"C04:"}, 3, 4, func(e *chainEngine, thorough bool) {
+			e.ops = []chainOp{markOp("fail-x-exit"), markOp("fail-y-exit"), markOp("fail-y-noout"), opBuild, opBuildFF}
+			if thorough {
+				e.ops = append(e.ops, markOp("fail-y-timeout"))
+			}
+		})(c)
 	}
 }
